@@ -271,6 +271,15 @@ Slots ==
   << Slot("Assign.value", "expr", "t = v", <<P("body", 1)>>, "value", "one"),
      Slot("Return.value", "expr", "return v", <<P("body", 1)>>, "value", "one"),
      Slot("BinOp.right", "expr", "l + r", <<P("body", 1), P("value", 1)>>, "right", "one"),
+     Slot("Attribute.value", "expr", "o.a", <<P("body", 1), P("value", 1)>>, "value", "one"),
+     Slot("Call.func", "expr", "f(x)", <<P("body", 1), P("value", 1)>>, "func", "one"),
+     Slot("List.elts[0]", "expr", "[x]", <<P("body", 1), P("value", 1)>>, "elts", "elt"),
+     Slot("Subscript.slice", "expr_slice", "v[i]", <<P("body", 1), P("value", 1)>>, "slice", "one"),
+     Slot("Call.args[0]", "expr_arglike", "f(x)", <<P("body", 1), P("value", 1)>>, "args", "elt"),
+     Slot("ClassDef.bases[0]", "expr_arglike", "class c(b): pass", <<P("body", 1)>>, "bases", "elt"),
+     Slot("ClassDef.keywords[0]", "keyword", "class c(k=v): pass", <<P("body", 1)>>, "keywords", "elt"),
+     Slot("MatchAs.pattern", "pattern", "match s:\n case p as n: pass", <<P("body", 1), P("cases", 1), P("pattern", 1)>>,
+          "pattern", "one"),
      Slot("FunctionDef.args", "arguments", "def f(p): pass", <<P("body", 1)>>, "args", "one"),
      Slot("Lambda.args", "arguments_lambda", "lambda p: 0", <<P("body", 1), P("value", 1)>>, "args", "one"),
      Slot("match_case.pattern", "pattern", "match s:\n case p: pass", <<P("body", 1), P("cases", 1)>>, "pattern", "one"),
